@@ -346,7 +346,10 @@ func (x *Exec) applyDirectives(st *State, fr *Frame, ct *Contract, args []Value)
 		if err != nil || len(stmts) != 1 {
 			// a statement outside the SQL subset: reported as a failed obligation
 			x.oblige(st, "sql", fmt.Sprintf("%s is outside the verified SQL subset: %v", parts[1], err), TFalse, fn.Pos(), x.sqlProps)
-			continue
+			// nothing can be said about a function whose statement cannot be read: the path ends here (going on
+			// would report the unbound statement as a second, misleading failure)
+			st.dead = true
+			return nil
 		}
 		p := args[idx].(VPtr)
 		st.heap[p.Loc.Obj] = &SQLStmtObj{Text: text, Stmt: stmts[0], Name: parts[1]}
